@@ -530,6 +530,128 @@ def check_far(case, R):
             R.outcome(ci, n, k >= 10)
 
 
+# ------------------------------------------------------------------ spellings of the same request
+
+
+INT_BANK = [(6, 11, 2), (13, 8, 2), (3, 10, 6), (7, 9, 11), (11, 8, 11), (12, 1, 3), (0, 9, 9)]  # integer ("voxel") coordinates, non-negative
+INT_SOMA = (0.5, -0.25, 1.75)  # a soma that is not on the integer lattice
+SPELLINGS_MST = ("positional", "keyword", "k_furcations (deprecated alias)", "attributes assigned after construction")
+SPELLINGS_CUNTZ = ("keyword", "attributes assigned after construction", "names passed at the call (deprecated)")
+CONTAINERS = ("float64", "float32", "list of lists", "fortran-ordered", "read-only", "int64 cloud + fractional soma", "int32 cloud + fractional soma",
+              "uint8 cloud + fractional soma")
+
+
+def _int_bank_ok():
+    pts = [INT_SOMA] + list(INT_BANK)
+    ds = sorted(math.dist(a, b) for a, b in itertools.combinations(pts, 2))
+    return all(b - a >= 1e-4 for a, b in zip(ds, ds[1:])) and ds[0] > 0.3
+
+
+def _make_mst(PointsToMST, spelling, k, excl, sort):
+    import warnings
+
+    if spelling == SPELLINGS_MST[0]:
+        return PointsToMST(k, exclude_soma=excl, sort=sort)
+    if spelling == SPELLINGS_MST[1]:
+        return PointsToMST(furcations=k, exclude_soma=excl, sort=sort)
+    if spelling == SPELLINGS_MST[2]:
+        with warnings.catch_warnings():
+            warnings.simplefilter("ignore")
+            return PointsToMST(k_furcations=k, exclude_soma=excl, sort=sort)
+    t = PointsToMST()
+    t.furcations, t.exclude_soma, t.sort = k, excl, sort
+    return t
+
+
+def _make_cuntz(PointsToCuntzMST, spelling, bf, k, excl, sort):
+    if spelling == SPELLINGS_CUNTZ[1]:
+        t = PointsToCuntzMST()
+        t.bf, t.furcations, t.exclude_soma, t.sort = bf, k, excl, sort
+        return t
+    return PointsToCuntzMST(bf=bf, furcations=k, exclude_soma=excl, sort=sort)
+
+
+def check_spellings(case, R):
+    """The same request written in every way the API offers (positional / keyword / deprecated alias / public attributes set after
+    construction / names given at the call) and the same cloud handed over in every container (dtype, layout, list, read-only,
+    integer voxel coordinates with a fractional soma): the tree must be the one the rule defines, whatever the spelling."""
+    import warnings
+
+    from swcgeom.core import swc
+    from swcgeom.transforms import PointsToCuntzMST, PointsToMST
+
+    kind, sub = case[0], list(case[1])
+    R.state(kind, sub)
+    if kind == "int":
+        base = [INT_BANK[i] for i in sub]  # non-negative so that unsigned containers can carry them
+        pts = [INT_SOMA] + base
+        containers = [c for c in CONTAINERS if "cloud" in c]
+    else:
+        B = bank(0)
+        pts = [B[i] for i in sub]
+        containers = [c for c in CONTAINERS if "cloud" not in c]
+    n = len(pts)
+    D = dist_matrix(pts)
+    mst_len = kruskal_length(D)
+
+    def inputs(cont, mode):
+        if kind == "int":
+            dt = {"int64": np.int64, "int32": np.int32, "uint8": np.uint8}[cont.split()[0]]
+            return np.array(pts[1:], dtype=np.float64).astype(dt), np.array(pts[0], dtype=np.float64)
+        arr = np.array(pts, dtype=np.float64)
+        P, soma = (arr.copy(), None) if mode == "first" else (arr[1:].copy(), arr[0].copy())
+        if cont == "float32":
+            # float32 input: the points ARE their float32 values; the reference below is computed on them
+            P = P.astype(np.float32)
+        elif cont == "list of lists":
+            P = np.array(P.tolist())  # annotated NDArray: a list is converted by the caller
+            soma = None if soma is None else soma.tolist()
+        elif cont == "fortran-ordered":
+            P = np.asfortranarray(P)
+        elif cont == "read-only":
+            P.setflags(write=False)
+            if soma is not None:
+                soma.setflags(write=False)
+        return P, soma
+
+    for bf in (0.0, 0.5):
+        for k in LIMITS:
+            for excl in (True, False):
+                want, why = greedy(D, bf, k, excl)
+                if want is None:
+                    R.skip(f"reference-{why}")
+                    continue
+                for sort in (True, False):
+                    for mode in (("soma",) if kind == "int" else ("first", "soma")):
+                        for cont in containers:
+                            if cont == "float32":
+                                continue  # distances of float32-rounded points differ from the bank's: covered by far-float32-clouds
+                            for sp in SPELLINGS_CUNTZ:
+                                P, soma = inputs(cont, mode)
+                                what = f"PointsToCuntzMST[{sp}](bf={bf}, furcations={k}, exclude_soma={excl}, sort={sort}) on {cont}, soma {mode}"
+
+                                def run(sp=sp, P=P, soma=soma):
+                                    t = _make_cuntz(PointsToCuntzMST, sp, bf, k, excl, sort)
+                                    if sp == SPELLINGS_CUNTZ[2]:
+                                        with warnings.catch_warnings():
+                                            warnings.simplefilter("ignore")
+                                            return t(P, soma, names=swc.get_names())
+                                    return t(P, soma)
+
+                                ok, t = R.impl("PointsToCuntzMST", run)
+                                if ok:
+                                    got = judge(R, what, f"spelling:cuntz:{sp}:{'int-cloud' if kind == 'int' else cont}", pts, D, t, bf, k, excl, want, mst_len)
+                                    R.outcome(sp, cont, tuple(got) if got else None)
+                            if bf == 0:
+                                for sp in SPELLINGS_MST:
+                                    P, soma = inputs(cont, mode)
+                                    what = f"PointsToMST[{sp}](furcations={k}, exclude_soma={excl}, sort={sort}) on {cont}, soma {mode}"
+                                    ok, t = R.impl("PointsToMST", lambda sp=sp, P=P, soma=soma: _make_mst(PointsToMST, sp, k, excl, sort)(P, soma))
+                                    if ok:
+                                        judge(R, what, f"spelling:mst:{sp}:{'int-cloud' if kind == 'int' else cont}", pts, D, t, 0.0, k, excl, want, mst_len)
+
+
+
 def spaces(tier, seed):
     q = tier == "quick"
     m_hi = 5 if q else 6
@@ -567,7 +689,21 @@ def spaces(tier, seed):
                 if n <= 140 or ci < 2 or (n + ci) % 3 == 0 or (n % 64) in (63, 0, 1, 2):
                     yield (n, ci)
 
+    if not _int_bank_ok():
+        raise RuntimeError("harness: the integer bank is not in general position")
+
+    def gen_spellings():
+        for m in (2, 3, 4) if q else (2, 3, 4, 5):
+            for sub in itertools.combinations(range(7), m):
+                yield ("float", sub)
+            for sub in itertools.combinations(range(len(INT_BANK)), m - 1):
+                yield ("int", sub)
+
     return [
+        Space.of("spellings", gen_spellings, check_spellings,
+                 bounds={"mst_spellings": list(SPELLINGS_MST), "cuntz_spellings": list(SPELLINGS_CUNTZ), "containers": list(CONTAINERS),
+                         "clouds": "every subset of 2..4 (thorough: 5) of the first 7 bank points; every subset of 1..3 (4) points of a 7-point integer bank "
+                                   "with a fractional soma", "bf": [0.0, 0.5], "furcations": list(LIMITS), "exclude_soma": [True, False], "sort": [True, False]}),
         Space.of("far-float32-clouds", lambda: ((n, k, ci) for n in (FAR_N if q else FAR_N + (100,)) for k in FAR_K for ci in range(len(FAR_CONFIGS))), check_far,
                  bounds={"points": list(FAR_N if q else FAR_N + (100,)), "placement": "(2^k, -2^k, 2^k), every k in 0..18; coordinates multiples of 1/32 (exact in float32)",
                          "configurations": [list(c) for c in FAR_CONFIGS]}),
